@@ -296,6 +296,48 @@ class CFG:
         r = self.reachable(start, blocked_nodes=via_nodes, blocked_edges=via_edges)
         return target not in r
 
+    def feasible(self, path):
+        """False when the path tests one and the same side-effect-free atom twice with opposite outcomes and nothing
+        the atom reads is assigned in between (`if ok and x > lim: ...` followed by `if not ok: ...`)."""
+        facts = {}
+        for nid, lab in path:
+            n = self.nodes[nid]
+            st = n.ast
+            if n.kind == "cond" and st is not None and lab in (True, False):
+                atom, pol = st, lab
+                while isinstance(atom, ast.UnaryOp) and isinstance(atom.op, ast.Not):
+                    atom, pol = atom.operand, not pol
+                if any(isinstance(x, (ast.Call, ast.Await, ast.NamedExpr)) for x in ast.walk(atom)):
+                    continue
+                key = ast.unparse(atom)
+                if key in facts and facts[key] != pol:
+                    return False
+                facts[key] = pol
+            elif st is not None and n.kind in ("stmt", "loop"):
+                stored = {x.id for x in ast.walk(st) if isinstance(x, ast.Name) and isinstance(x.ctx, (ast.Store, ast.Del))}
+                stored |= {ast.unparse(x) for x in ast.walk(st) if isinstance(x, (ast.Attribute, ast.Subscript)) and isinstance(x.ctx, (ast.Store, ast.Del))}
+                if stored:
+                    for key in list(facts):
+                        if any(s == key or s in key.replace("(", " ").replace(")", " ").replace("[", " ").replace("]", " ").replace(".", " ").split() or key.startswith(s) for s in stored):
+                            facts.pop(key)
+        return True
+
+    def must_pass_feasible(self, target, via_nodes=(), via_edges=(), start=None, limit=20000):
+        """Like must_pass, but a path that avoids the required edges only counts when it is feasible (see feasible)."""
+        if self.must_pass(target, via_nodes=via_nodes, via_edges=via_edges, start=start):
+            return True
+        via_nodes = set(via_nodes)
+        via_edges = set(via_edges)
+        paths = self.paths(start=start, targets=[target], max_visits=1, limit=limit)
+        if len(paths) >= limit:
+            return False
+        for path in paths:
+            if any(nid in via_nodes or (nid, lab) in via_edges for nid, lab in path):
+                continue
+            if self.feasible(path):
+                return False
+        return True
+
     def witness_path(self, target, blocked_nodes=(), blocked_edges=(), start=None):
         """One path (list of node ids) from start to target avoiding the blocked items, or None."""
         start = self.entry.id if start is None else start
